@@ -283,8 +283,13 @@ func (s *SwapStateMachine) exponentialBackoffAndJitter() {
 
 // Recover tries to continue from the current state, by doing the associated Action
 func (s *SwapStateMachine) Recover() (bool, error) {
+	// The swap is already registered as active when it is recovered, so peer
+	// messages, watcher callbacks and time-outs may arrive concurrently: the
+	// part that runs the action directly needs the swap mutex, too.
+	s.mutex.Lock()
 	log.Infof("[Swap:%s]: Recovering from state %s", s.SwapId.String(), s.Current)
 	if s.Current == Default {
+		defer s.mutex.Unlock()
 		// The process stopped after the swap was first persisted but before
 		// its first transition: nothing has been sent or broadcast yet. There
 		// is no action to resume, so the swap is canceled instead of staying
@@ -300,19 +305,23 @@ func (s *SwapStateMachine) Recover() (bool, error) {
 	}
 	state, ok := s.States[s.Current]
 	if !ok {
+		s.mutex.Unlock()
 		return false, fmt.Errorf("unknown state: %s for swap %s", s.Current, s.SwapId.String())
 	}
 
 	if !ok || state.Action == nil {
 		// configuration error
+		s.mutex.Unlock()
 		return false, ErrFsmConfig
 	}
 	if state.FailOnrecover {
+		s.mutex.Unlock()
 		return s.SendEvent(Event_ActionFailed, nil)
 	}
 
 	nextEvent := state.Action.Execute(s.swapServices, s.Data)
 	err := s.swapServices.swapStore.UpdateData(s)
+	s.mutex.Unlock()
 	if err != nil {
 		return false, err
 	}
